@@ -37,6 +37,12 @@ Definition wmean_ok (l : list (Q * Q)) (r tol : Q) : bool :=
           Qle_bool (Qabs (r * sumw l - sumwf l)) (tol * sumw l))
   end.
 
+(* the weight of a pixel in a band: its width in log-wavelength |d(log lambda)| (fitted; negative when the spectrum is stored
+   red to blue) times the filter response interpolated at the pixel's wavelength *)
+Definition weight_S (fitted resp : Q) : Q := Qabs fitted * resp.
+Definition spec_pairs (l : list (Q * Q * Q)) : list (Q * Q) :=
+  map (fun t : Q * Q * Q => (weight_S (fst (fst t)) (snd (fst t)), snd t)) l.
+
 (* ---------- air <-> vacuum: what the property demands of one observed value ---------- *)
 Definition threshold_A : Q := 2000.
 
